@@ -11,6 +11,7 @@ import (
 	"sort"
 	"strings"
 	"sync"
+	"sync/atomic"
 	"time"
 
 	"github.com/spq/pkappa2/verifx/mc"
@@ -198,6 +199,7 @@ func Run(prop, tier string) int {
 		cv["transitions"] = trans
 		cv["traces_validated_against_impl"] = trans
 		cv["evaluations"] = trans
+		cv["waiting_verdicts_not_reproduced_by_a_second_run"] = atomic.LoadInt64(&svc.WaitVerdictsNotReproduced)
 		cv["distinct_nontrivial"] = states
 		cv["rule"] = "explicit-state search over every interleaving of a client program (API calls in program order) with the steps of the real background jobs (import, tagging, merge, conversion; two gates each) on the real manager; histories reaching the same canonical service state are merged; every state is obtained by replaying its history on a fresh service; in every state the invariants of C06/C10/C13/C16 are evaluated, then the parked jobs are drained (C09) and the quiescent state is judged again; non-trivial = every state (each has at least one job parked or one API call pending against shared tags/indexes)"
 		cv["scenarios"] = perScenario
